@@ -101,7 +101,45 @@ func (e *env) sig(fn string, arr []any, f finding) string {
 	for i, a := range args {
 		kinds[i] = e.argKind(a, f.Root)
 	}
+	if f.Disc == "reprint-differs" && strings.Contains(f.Detail, "→") {
+		// the array itself came back different: the cause sits in the printer /
+		// parser pair and is named in the detail (kind before → kind after);
+		// which function merely exposes it is not part of the identity
+		return core.Sig(f.Disc, f.Detail, "fn=*")
+	}
 	return core.Sig(f.Disc, f.Detail, "fn="+fn, fmt.Sprintf("n=%d", len(args)), "kinds="+strings.Join(kinds, ","))
+}
+
+// canonical replacements tried by reduce, simplest first.
+var (
+	canonLits  = []string{`1`, `0`, `"a"`, `null`, `true`, `2.5`, `[1,2]`, `{"a":1}`}
+	canonCalls = []string{`["sum",1,2]`, `["get","$.src.a"]`, `["list",1,2]`}
+	canonPaths = []string{`"$.src.a"`}
+)
+
+// canonFor lists the simpler stand-ins to try for one argument.
+func (e *env) canonFor(a any) []any {
+	m := &asmref.M{Fns: e.fns}
+	var pool []string
+	if m.IsCall(a) {
+		pool = canonCalls
+	} else if s, ok := a.(string); ok && s != "" && (s[0] == '$' || s[0] == '@') {
+		if _, isPath := asmref.ParsePath(s); !isPath {
+			return nil
+		}
+		pool = canonPaths
+	} else {
+		pool = canonLits
+	}
+	cur := toJSON(a)
+	var out []any
+	for _, js := range pool {
+		if js == cur {
+			break // only stand-ins simpler than the argument itself
+		}
+		out = append(out, mustJSON(js))
+	}
+	return out
 }
 
 // literalOf gives the literal an evaluated argument could be replaced by.
@@ -151,7 +189,10 @@ func plainLiteral(v any, m *asmref.M) bool {
 
 // reduce shrinks a failing plan while the same (disc, detail) keeps failing
 // on the witness root: drop an argument, or replace a path/call argument by
-// the literal it evaluates to; finally try the earlier (simpler) roots.
+// the literal it evaluates to, or replace an argument by a simpler stand-in of
+// the same form (canonLits / canonCalls / canonPaths); finally try the earlier
+// (simpler) roots. The result is a canonical minimal witness, so that the many
+// argument vectors exposing one defect share a signature.
 func (e *env) reduce(fn string, arr []any, f finding) ([]any, finding) {
 	saved := map[string]int64{}
 	for k, v := range e.cnt {
@@ -178,7 +219,7 @@ func (e *env) reduce(fn string, arr []any, f finding) ([]any, finding) {
 		return finding{}, false
 	}
 	cur := arr
-	budget := 60
+	budget := 150
 	for changed := true; changed && budget > 0; {
 		changed = false
 		args := argsOf(fn, cur)
@@ -194,6 +235,13 @@ func (e *env) reduce(fn string, arr []any, f finding) ([]any, finding) {
 			if lit, ok := e.literalOf(args[i], f.Root); ok {
 				na := append([]any{}, args...)
 				na[i] = lit
+				cands = append(cands, planOf(fn, na))
+			}
+		}
+		for i := range args {
+			for _, alt := range e.canonFor(args[i]) {
+				na := append([]any{}, args...)
+				na[i] = alt
 				cands = append(cands, planOf(fn, na))
 			}
 		}
